@@ -281,6 +281,8 @@ def edit_catalogue():
                  ('xref', 'http://x/'), ('compress', True), ('fuzzy-matching', 'phonetic'), ('regex-soft', '[a-z]'),
                  ('regex-hard', '[a-z]+'), ('data-type', 'string:10:mc:u')]:
         E.append(('object-type', 'o.' + k, setter(ot('o'), k, v)))
+    for k in ('xref', 'regex-soft', 'regex-hard', 'fuzzy-matching'):
+        E.append(('object-type', 'o.%s=empty' % k, setter(ot('o'), k, '')))
     E.append(('object-type', 'o.regex-hard=x|y', setter(ot('o'), 'regex-hard', '[a-z]+|[0-9]+')))
     E.append(('object-type', 'o.regex-hard=zx|y', setter(ot('o'), 'regex-hard', 'z[a-z]+|[0-9]+')))
     E.append(('object-type', 'g.regex-hard=x|y', setter(ot('g'), 'regex-hard', '[a-z]+|[0-9]+')))
@@ -308,6 +310,11 @@ def edit_catalogue():
     E.append(('event-type', 'ta.+mandatory-property', lambda o: _et(o)['properties'].append(PROP('z', 'o'))))
     E.append(('event-type', 'ta.+optional-datetime-property', lambda o: _et(o)['properties'].append(PROP('z', 'd', optional=True))))
     E.append(('event-type', 'ta.-property', lambda o: _et(o)['properties'].pop()))
+    # several sub-elements changed at once: one acceptable, one not (either order)
+    E.append(('event-type', 'ta.+optional+mandatory-property', lambda o: _et(o)['properties'].extend([PROP('y', 'o', optional=True), PROP('z', 'o')])))
+    E.append(('event-type', 'ta.+mandatory+optional-property', lambda o: _et(o)['properties'].extend([PROP('y', 'o'), PROP('z', 'o', optional=True)])))
+    E.append(('event-type', 'ta.-property+optional-property', lambda o: (_et(o)['properties'].pop(), _et(o)['properties'].append(PROP('z', 'o', optional=True)))))
+    E.append(('event-type', 'ta.+two-optional-properties', lambda o: _et(o)['properties'].extend([PROP('y', 'o', optional=True), PROP('z', 'n', optional=True)])))
     E.append(('event-type', 'ta.+relation', lambda o: _et(o)['relations'].append(REL('other', 'q', 'r'))))
     E.append(('event-type', 'ta.-relation', lambda o: _et(o)['relations'].pop()))
     E.append(('event-type', 'ta.+attachment', lambda o: _et(o)['attachments'].append(ATT('doc2'))))
